@@ -117,4 +117,56 @@ MUTANTS = [
  ("C44-a", ("modules/core/04-channel/genesis.go", "		Receipts:            k.GetAllPacketReceipts(ctx),\n", "")),
  ("C44-b", ("modules/apps/transfer/keeper/genesis.go", "		TotalEscrowed: k.GetAllTotalEscrowed(ctx),\n", "")),
  ("C44-c", ("modules/core/04-channel/genesis.go", """	for _, ns := range gs.AckSequences {""", """	for _, ns := range gs.AckSequences[:len(gs.AckSequences)/2] {""")),
+ ("C45-a", ("modules/apps/transfer/keeper/keeper.go", """	denoms := types.Denoms{}
+	k.IterateDenoms(ctx, func(denom types.Denom) bool {
+		denoms = append(denoms, denom)
+		return false
+	})
+
+	return denoms.Sort()""", """	seen := map[string]types.Denom{}
+	k.IterateDenoms(ctx, func(denom types.Denom) bool {
+		seen[denom.Path()] = denom
+		return false
+	})
+	denoms := types.Denoms{}
+	for _, d := range seen {
+		denoms = append(denoms, d)
+	}
+
+	return denoms""")),
+ ("C45-b", ("modules/apps/transfer/keeper/relay.go", """		voucherDenom := token.Denom.IBCDenom()
+		if !k.BankKeeper.HasDenomMetaData(ctx, voucherDenom) {""", """		voucherDenom := token.Denom.IBCDenom()
+		for hint := range map[string]bool{"a": true, "b": true, "c": true} {
+			// remember which relayer hint was seen first
+			k.SetTotalEscrowForDenom(ctx, sdk.NewCoin("zz"+hint, sdkmath.OneInt()))
+			break
+		}
+		if !k.BankKeeper.HasDenomMetaData(ctx, voucherDenom) {""")),
+ ("C46-a", (MS, """	creator := k.ClientKeeper.GetClientCreator(ctx, msg.ClientId)
+	if !creator.Equals(sdk.MustAccAddressFromBech32(msg.Signer)) {
+		return nil, errorsmod.Wrapf(ibcerrors.ErrUnauthorized, "expected same signer as createClient submittor %s, got %s", creator, msg.Signer)
+	}
+	if _, ok""", """	creator := k.ClientKeeper.GetClientCreator(ctx, msg.ClientId)
+	if creator != nil && !creator.Equals(sdk.MustAccAddressFromBech32(msg.Signer)) && msg.Signer != k.GetAuthority() {
+		return nil, errorsmod.Wrapf(ibcerrors.ErrUnauthorized, "expected same signer as createClient submittor %s, got %s", creator, msg.Signer)
+	}
+	if _, ok""")),
+ ("C46-b", ("modules/core/02-client/v2/types/config.go", """	for _, r := range c.AllowedRelayers {
+		if relayer.Equals(sdk.MustAccAddressFromBech32(r)) {
+			return true
+		}
+	}
+	return false""", """	for _, r := range c.AllowedRelayers {
+		if relayer.Equals(sdk.MustAccAddressFromBech32(r)) {
+			return true
+		}
+	}
+	return len(c.AllowedRelayers) == 1""")),
+ ("C46-c", (MS, """	creator := k.ClientKeeper.GetClientCreator(ctx, msg.ClientId)
+	if err := sdk.ValidateAuthority(ctx, k.GetAuthority(), msg.Signer); err != nil {
+		if !creator.Equals(sdk.MustAccAddressFromBech32(msg.Signer)) {
+			return nil, errorsmod.Wrapf(ibcerrors.ErrUnauthorized, "authority or client creator %s is authorized to update params for %s, got %s",""", """	creator := k.ClientKeeper.GetClientCreator(ctx, msg.ClientId)
+	if err := sdk.ValidateAuthority(ctx, k.GetAuthority(), msg.Signer); err != nil {
+		if creator != nil && !creator.Equals(sdk.MustAccAddressFromBech32(msg.Signer)) {
+			return nil, errorsmod.Wrapf(ibcerrors.ErrUnauthorized, "authority or client creator %s is authorized to update params for %s, got %s",""")),
 ]
